@@ -528,7 +528,27 @@ def _dict(ex, st, args, kw, node):
 
 
 def _isinstance(ex, st, args, kw, node):
-    raise Undecided("isinstance outside the modelled idioms")
+    from .core import ClsV
+    from . import objects
+    v, c = args
+    classes = list(c) if isinstance(c, (Tup, tuple)) else [c]
+    if not all(isinstance(x, ClsV) for x in classes):
+        raise Undecided("isinstance with a class that is not modelled")
+    names = {x.name for x in classes}
+    if isinstance(v, NoneV):
+        return z3.BoolVal(False)
+    if isinstance(v, ORef):
+        return z3.BoolVal(st.heap[v.oid].cls in names)
+    if isinstance(v, objects.SObj):
+        return z3.BoolVal(v.cls in names)
+    raise Undecided("isinstance of this value")
+
+
+def _getattr(ex, st, args, kw, node):
+    o, name = args[0], args[1]
+    if not isinstance(name, StrV):
+        raise Undecided("getattr with a symbolic name")
+    return ex.getattr(st, o, name.s, node)
 
 
 def _list_append(ex, st, args, kw, node):
@@ -638,7 +658,7 @@ BUILTINS = {
     "len": FuncV(_len, "len"), "abs": FuncV(_abs, "abs"), "int": FuncV(_int, "int"), "float": FuncV(_float, "float"),
     "bool": FuncV(lambda ex, st, a, k, n: truth(a[0]), "bool"),
     "min": _minmax("min"), "max": _minmax("max"), "tuple": FuncV(_tuple, "tuple"), "list": FuncV(_list, "list"),
-    "dict": FuncV(_dict, "dict"), "isinstance": FuncV(_isinstance, "isinstance"),
+    "dict": FuncV(_dict, "dict"), "isinstance": FuncV(_isinstance, "isinstance"), "getattr": FuncV(_getattr, "getattr"),
     "True": z3.BoolVal(True), "False": z3.BoolVal(False),
     # spec-level names for the uninterpreted mathematics
     "sqrt": SQRT, "sin": SIN, "cos": COS, "log10": LOG10, "pow10": POW10, "exp": EXP, "log": LOG, "pi": PI,
